@@ -39,6 +39,7 @@ def run(ctx):
     import numpy as np
     import icontract
     from dtaidistance.subsequence import subsequencealignment as sa_mod
+    dtw_cc = sa_mod.dtw_cc
     from dtaidistance.subsequence.subsequencealignment import SubsequenceAlignment, subsequence_alignment
     rng = ctx.rng
 
@@ -181,6 +182,81 @@ def run(ctx):
             ctx.violation("kbest-stream", reason="no progress: " + str(ex), use_c=use_c, args=args, before=seen, **wit)
         except Exception as ex:
             ctx.violation("exception", fn="kbest_matches", use_c=use_c, args=args, error=repr(ex)[:300], **wit)
+        # the other iterators over the same machinery: each must be a prefix of the unbounded k-best stream of a fresh
+        # object (same overlap / length limits), cut where its documented stopping rule says; *_fast == use_c=True
+        if it % 2 == 1:
+            try:
+                lim = dict(overlap=overlap, minlength=minlength, maxlength=maxlength)
+                sbd = monitors.step_bound([SubsequenceAlignment._best_matches.__code__], 8000 * (c + 5) * (r + 5))
+                sbd.__enter__()
+
+                def rec_(ms):
+                    return [(int(m.idx), [int(x) for x in m.segment], float(m.value)) for m in ms]
+                full = rec_(SubsequenceAlignment(qa, sa_, penalty=penalty, use_c=use_c).kbest_matches(k=None, **lim))
+                fac = rng.choice([1.0, 1.5, 2, 4])
+                rf = rec_(SubsequenceAlignment(qa, sa_, penalty=penalty, use_c=use_c).best_matches(max_rangefactor=fac, **lim))
+                alpha = rng.choice([0.1, 0.3, 0.9])
+                kn = rec_(SubsequenceAlignment(qa, sa_, penalty=penalty, use_c=use_c).best_matches_knee(alpha=alpha, **lim))
+                badi = None
+                if rf != full[:len(rf)]:
+                    badi = ("best_matches", "not a prefix of the unbounded k-best stream", rf)
+                elif rf and any(v > rf[0][2] * fac * (1 + 1e-12) + 1e-15 for _, _, v in rf):
+                    badi = ("best_matches", "a match exceeds max_rangefactor times the first value", rf)
+                elif len(rf) < len(full) and rf and full[len(rf)][2] <= rf[0][2] * fac * (1 - 1e-12) - 1e-15:
+                    badi = ("best_matches", "stopped although the next match is within max_rangefactor times the first value", rf)
+                elif full and not rf:
+                    badi = ("best_matches", "no match although the k-best stream has one", rf)
+                elif kn != full[:len(kn)]:
+                    badi = ("best_matches_knee", "not a prefix of the unbounded k-best stream", kn)
+                ctx.count("other_iterators_checked", 2)
+                if badi:
+                    ctx.violation("kbest-stream", fn=badi[0], reason=badi[1], got=badi[2], full_stream=full, use_c=use_c,
+                                  args=dict(lim, max_rangefactor=fac, alpha=alpha), **wit)
+                if dtw_cc is not None and not nd:
+                    kk_ = rng.choice([None, 1, 2])
+                    viaf = [rec_(SubsequenceAlignment(qa, sa_, penalty=penalty, use_c=False).kbest_matches_fast(k=kk_, **lim)),
+                            rec_(SubsequenceAlignment(qa, sa_, penalty=penalty, use_c=False).best_matches_fast(max_rangefactor=fac, **lim)),
+                            rec_(SubsequenceAlignment(qa, sa_, penalty=penalty, use_c=False).best_matches_knee_fast(alpha=alpha, **lim))]
+                    viac = [rec_(SubsequenceAlignment(qa, sa_, penalty=penalty, use_c=True).kbest_matches(k=kk_, **lim)),
+                            rec_(SubsequenceAlignment(qa, sa_, penalty=penalty, use_c=True).best_matches(max_rangefactor=fac, **lim)),
+                            rec_(SubsequenceAlignment(qa, sa_, penalty=penalty, use_c=True).best_matches_knee(alpha=alpha, **lim))]
+                    bmf = SubsequenceAlignment(qa, sa_, penalty=penalty, use_c=False)
+                    bmf.align_fast()
+                    b1 = bmf.best_match_fast()
+                    bmc = SubsequenceAlignment(qa, sa_, penalty=penalty, use_c=True)
+                    bmc.align()
+                    b2 = bmc.best_match()
+                    viaf.append([(int(b1.idx), [int(x) for x in b1.segment], float(b1.value))])
+                    viac.append([(int(b2.idx), [int(x) for x in b2.segment], float(b2.value))])
+                    if bmf.matching_function_segment(int(b1.idx)) != [int(x) for x in b1.segment]:
+                        ctx.violation("kbest-stream", fn="matching_function_segment", reason="differs from the match's segment",
+                                      got=[int(x) for x in bmf.matching_function_segment(int(b1.idx))], segment=[int(x) for x in b1.segment], **wit)
+                    ctx.count("fast_variants_checked", 4)
+                    def same_stream(x_, y_):
+                        # values up to engine rounding; end points / segments exactly unless two values of the stream are
+                        # so close that rounding may legitimately reorder them
+                        if len(x_) != len(y_):
+                            return False
+                        if any(not dtwmon.engines_agree(p_[2], q_[2], ctx) for p_, q_ in zip(x_, y_)):
+                            return False
+                        vs_ = sorted(p_[2] for p_ in x_)
+                        if any(b_ - a_ <= 1e-9 * max(1.0, abs(b_)) for a_, b_ in zip(vs_, vs_[1:])):
+                            ctx.count("fast_variant_near_ties_skipped")
+                            return True
+                        return [p_[:2] for p_ in x_] == [q_[:2] for q_ in y_]
+                    if not all(same_stream(x_, y_) for x_, y_ in zip(viaf, viac)):
+                        ctx.violation("python-differs-from-c", what="*_fast methods differ from the same call on a use_c=True object",
+                                      fast=viaf, use_c_object=viac, args=dict(lim, k=kk_, max_rangefactor=fac, alpha=alpha), **wit)
+                sbd.__exit__(None, None, None)
+            except Exception as ex:
+                try:
+                    sbd.__exit__(None, None, None)
+                except Exception:
+                    pass
+                if isinstance(ex, monitors.StepLimit):
+                    ctx.violation("kbest-stream", reason="no progress: " + str(ex), use_c=use_c, **wit)
+                else:
+                    ctx.violation("exception", fn="best_matches/_knee/_fast", use_c=use_c, error=repr(ex)[:300], **wit)
         # histories: interleaved generators on one object vs fresh objects
         if it % 2 == 0:
             try:
